@@ -39,7 +39,9 @@ type Case struct {
 	Code     int    `json:"code,omitempty"`
 	E2E      bool   `json:"end_to_end"` // through Client.Login / GetServiceTicket over loopback sockets
 	Seed     uint64 `json:"seed"`
-	Client   string `json:"client,omitempty"` // the client principal, "" = alice; alice/admin has two components
+	Opts     string `json:"opts,omitempty"`        // libdefaults variant: "" | canonicalize | fwd-prox-renew | clockskew60 | clockskew900
+	UDPBig   bool   `json:"udp_too_big,omitempty"` // end-to-end: UDP is tried first and answers RESPONSE_TOO_BIG, the reply proper comes over TCP
+	Client   string `json:"client,omitempty"`      // the client principal, "" = alice; alice/admin has two components
 }
 
 // client is the client principal of the case's own world, components separated by "/".
@@ -60,7 +62,20 @@ func (c Case) regrouped() der.M {
 	return der.Name(1, n[0][:2], n[0][2:])
 }
 
-const skewMs = 300000
+// skewMs is the clock skew the client's configuration allows (libdefaults clockskew, default 300 s).
+func (c Case) skewMs() time.Duration {
+	switch c.Opts {
+	case "clockskew60":
+		return 60000
+	case "clockskew900":
+		return 900000
+	}
+	return 300000
+}
+
+// optsList: configuration variants under which every perturbation keeps its effect.
+var optsList = []string{"", "canonicalize", "fwd-prox-renew", "clockskew60", "clockskew900"}
+
 const margin = 4000 // ms; KDC times have one-second resolution
 
 // effect: "reject", "accept" or "free" (the statement does not constrain the outcome; only no panic)
@@ -105,20 +120,20 @@ var catalogue = []perturb{
 		x.Enc["caddr"] = []any{der.M{"addr-type": int64(2), "address": []byte{192, 0, 2, 78}}}
 	}},
 	{"authtime-past-inside", "accept", "accept", func(c Case, x *kdc.ReplyCtx, p int64) {
-		shift(x.Enc, "authtime", -(skewMs-margin)*time.Millisecond)
-		shift(x.Enc, "starttime", -(skewMs-margin)*time.Millisecond)
+		shift(x.Enc, "authtime", -(c.skewMs()-margin)*time.Millisecond)
+		shift(x.Enc, "starttime", -(c.skewMs()-margin)*time.Millisecond)
 	}},
 	{"authtime-past-outside", "reject", "reject", func(c Case, x *kdc.ReplyCtx, p int64) {
-		shift(x.Enc, "authtime", -(skewMs+margin)*time.Millisecond)
-		shift(x.Enc, "starttime", -(skewMs+margin)*time.Millisecond)
+		shift(x.Enc, "authtime", -(c.skewMs()+margin)*time.Millisecond)
+		shift(x.Enc, "starttime", -(c.skewMs()+margin)*time.Millisecond)
 	}},
 	{"authtime-future-inside", "accept", "accept", func(c Case, x *kdc.ReplyCtx, p int64) {
-		shift(x.Enc, "authtime", (skewMs-margin)*time.Millisecond)
-		shift(x.Enc, "starttime", (skewMs-margin)*time.Millisecond)
+		shift(x.Enc, "authtime", (c.skewMs()-margin)*time.Millisecond)
+		shift(x.Enc, "starttime", (c.skewMs()-margin)*time.Millisecond)
 	}},
 	{"authtime-future-outside", "reject", "reject", func(c Case, x *kdc.ReplyCtx, p int64) {
-		shift(x.Enc, "authtime", (skewMs+margin)*time.Millisecond)
-		shift(x.Enc, "starttime", (skewMs+margin)*time.Millisecond)
+		shift(x.Enc, "authtime", (c.skewMs()+margin)*time.Millisecond)
+		shift(x.Enc, "starttime", (c.skewMs()+margin)*time.Millisecond)
 	}},
 	// centuries away from the client's clock (beyond what a 64-bit nanosecond duration can express)
 	{"authtime-year-2400", "reject", "reject", func(c Case, x *kdc.ReplyCtx, p int64) {
@@ -145,15 +160,15 @@ var catalogue = []perturb{
 	// starttime is OPTIONAL: a reply without it must still have its authtime inside the skew
 	{"no-starttime-authtime-inside", "accept", "accept", func(c Case, x *kdc.ReplyCtx, p int64) {
 		delete(x.Enc, "starttime")
-		shift(x.Enc, "authtime", -(skewMs-margin)*time.Millisecond)
+		shift(x.Enc, "authtime", -(c.skewMs()-margin)*time.Millisecond)
 	}},
 	{"no-starttime-authtime-past-outside", "reject", "reject", func(c Case, x *kdc.ReplyCtx, p int64) {
 		delete(x.Enc, "starttime")
-		shift(x.Enc, "authtime", -(skewMs+margin)*time.Millisecond)
+		shift(x.Enc, "authtime", -(c.skewMs()+margin)*time.Millisecond)
 	}},
 	{"no-starttime-authtime-future-outside", "reject", "reject", func(c Case, x *kdc.ReplyCtx, p int64) {
 		delete(x.Enc, "starttime")
-		shift(x.Enc, "authtime", (skewMs+margin)*time.Millisecond)
+		shift(x.Enc, "authtime", (c.skewMs()+margin)*time.Millisecond)
 	}},
 	{"key-other", "reject", "reject", func(c Case, x *kdc.ReplyCtx, p int64) {
 		x.ReplyKey = mint.Key{EType: x.ReplyKey.EType, Value: ref.RandomKey(x.ReplyKey.EType, []byte("an-unrelated-key-an-unrelated-key-0123456789"))}
@@ -290,15 +305,30 @@ func build(c Case, addrs []string) (*world, error) {
 	pr := r.AddClient(c.client(), "pass-"+fmt.Sprint(c.Seed%1000), salt, iter)
 	r.AddService("HTTP/web.example.com")
 	lim := 1
+	limp := &lim
+	if c.UDPBig {
+		limp = nil // the default limit: small requests go out over UDP first
+	}
 	extra := ""
 	if c.Addrs {
 		extra = "  extra_addresses = 10.9.8.7,10.9.8.6\n"
 	}
+	co := kdc.ConfOpts{}
+	switch c.Opts {
+	case "canonicalize":
+		co.Canonicalize = true
+	case "fwd-prox-renew":
+		co.Forwardable, co.Proxiable, co.RenewLifetime = true, true, "1h"
+	case "clockskew60":
+		extra += "  clockskew = 60\n"
+	case "clockskew900":
+		extra += "  clockskew = 900\n"
+	}
 	if len(addrs) == 0 {
 		addrs = []string{"127.0.0.1:1"}
 	}
-	txt := kdc.ConfText(kdc.ConfOpts{DefaultRealm: "EXAMPLE.COM", ETypes: etypeNames[c.EType], NoAddresses: !c.Addrs, UDPPrefLimit: &lim, Extra: extra + "  allow_weak_crypto = true\n"},
-		map[string][]string{"EXAMPLE.COM": addrs})
+	co.DefaultRealm, co.ETypes, co.NoAddresses, co.UDPPrefLimit, co.Extra = "EXAMPLE.COM", etypeNames[c.EType], !c.Addrs, limp, extra+"  allow_weak_crypto = true\n"
+	txt := kdc.ConfText(co, map[string][]string{"EXAMPLE.COM": addrs})
 	cfg, err := config.NewFromString(txt)
 	if err != nil {
 		return nil, err
@@ -532,7 +562,11 @@ func evalE2E(c Case) evid.Verdict {
 	if err != nil {
 		return evid.Fail("harness", "build: %v", err)
 	}
-	srv := kdc.NewServer(wd.realm, ip, 8890, kdc.Refuses, kdc.Answers, "k")
+	udp := kdc.Refuses
+	if c.UDPBig {
+		udp = kdc.TooBig
+	}
+	srv := kdc.NewServer(wd.realm, ip, 8890, udp, kdc.Answers, "k")
 	if err := srv.Start(); err != nil {
 		return evid.Fail("harness", "listen: %v", err)
 	}
@@ -646,8 +680,10 @@ func TestProp(t *testing.T) {
 			c.Salted = false
 		}
 		c.Client = rapid.SampledFrom([]string{"", "alice/admin"}).Draw(t, "client")
+		c.Opts = rapid.SampledFrom(append([]string{"", ""}, optsList...)).Draw(t, "opts")
+		c.UDPBig = c.E2E && rapid.IntRange(0, 2).Draw(t, "udpbig") == 0
 		if c.Exchange == "TGS" && rapid.IntRange(0, 9).Draw(t, "referral") == 0 {
-			c.Exchange, c.E2E, c.Addrs, c.Salted, c.Client = "TGS-REF", true, false, false, ""
+			c.Exchange, c.E2E, c.Addrs, c.Salted, c.Client, c.Opts, c.UDPBig = "TGS-REF", true, false, false, "", "", false
 		}
 		count(r, c)
 		if r.Judge("reply", c, Eval(c)) {
@@ -667,7 +703,7 @@ func TestProp(t *testing.T) {
 							continue
 						}
 						jobs = append(jobs, Case{Exchange: ex, EType: et, Cred: cred, Addrs: addrs, Perturb: p, Seed: r.Seed()*977 + uint64(k), Salted: cred == "password" && k%2 == 0,
-							Client: []string{"", "alice/admin"}[(k/2)%2]})
+							Client: []string{"", "alice/admin"}[(k/2)%2], Opts: optsList[(k/4)%len(optsList)]})
 					}
 				}
 			}
@@ -678,6 +714,10 @@ func TestProp(t *testing.T) {
 			if r.Thorough() || ci%6 == int(r.Seed())%6 {
 				jobs = append(jobs, Case{Exchange: ex, EType: et, Cred: "keytab", Perturb: "krb-error", Code: code, Seed: r.Seed()*37 + uint64(code), E2E: true})
 			}
+			if r.Thorough() || ci%6 == (int(r.Seed())+3)%6 {
+				// the KDC's error arrives over TCP after UDP said RESPONSE_TOO_BIG: it is the TCP answer that counts
+				jobs = append(jobs, Case{Exchange: ex, EType: et, Cred: "keytab", Perturb: "krb-error", Code: code, Seed: r.Seed()*41 + uint64(code), E2E: true, UDPBig: true})
+			}
 		}
 	}
 	// end-to-end sample of the perturbation catalogue
@@ -685,7 +725,7 @@ func TestProp(t *testing.T) {
 		for ei, ex := range []string{"AS", "TGS"} {
 			if r.Thorough() || (pi+ei+int(r.Seed()))%3 == 0 {
 				jobs = append(jobs, Case{Exchange: ex, EType: ref.ETypes[(pi+ei)%6], Cred: []string{"password", "keytab"}[pi%2], Perturb: p, Seed: r.Seed()*53 + uint64(pi), E2E: true, Addrs: pi%3 == 0,
-					Client: []string{"alice/admin", ""}[(pi/2)%2]})
+					Client: []string{"alice/admin", ""}[(pi/2)%2], Opts: optsList[(pi+ei)%len(optsList)], UDPBig: (pi+ei)%4 == 1})
 			}
 		}
 	}
